@@ -440,5 +440,11 @@ def run(ck):
     FunctionCheck(ck, qn, sc, spec_target("Both", True, False), []).explore().obligations()
 
     wiring(ck)
+    # the dark-sky rule the target-mode optical integral applies: the callee's own contract (shared with C13) is discharged here as well, so
+    # that the trigger rule of the integral is the one the statement names and not merely "whatever sun_moon_cut returns"
+    from contracts import C13
+
+    ck.add_file("nuspacesim/simulation/geometry/too.py")
+    C13.dark_sky(ck)
     ck.bounded_run("two channel integrals on one geometry object", lambda: channel_history(ck),
                    design="3 detector altitudes x 4000 thrown events; RegionGeom.mcintegral with optical-like (per-event cone) and radio-like (scalar cone) arguments in the orders O-R, R-O, O-O, R-R on one object vs each alone on a freshly thrown object")
